@@ -257,6 +257,18 @@ func checkC02(c *Check) {
 		return g4Words(body)
 	}
 	c02OptionalMarker(c)
+	// post-processing applies declared attributes to every matching statement: a
+	// short-circuited `applied = applied || apply(…)` in a loop leaves the later
+	// ones out
+	ppFns := map[*ssa.Function]bool{}
+	for _, f := range p.RepoFuncs() {
+		if fnPkgPath(f) == repoMod+"/"+parsePkg && !strings.HasSuffix(p.fnFile(f), "_test.go") {
+			ppFns[f] = true
+		}
+	}
+	nSk := skippedEffects(c, "SKIPPED-EFFECT", ppFns)
+	c.Counts["short_circuited_calls_in_loops"] = nSk
+	c.Okf("SKIPPED-EFFECT", "scan", "-", "%d functions of pkg/parse scanned for `flag = flag || f(x)` in loops: %d found and evaluated", len(ppFns), nSk)
 	c02Native(c, words)
 	c02Ops(c, words)
 	c02Verbs(c, words)
